@@ -1718,9 +1718,9 @@ Proof.
     assert (v0 = v) by (eapply nodup_fst_inj; [apply (H2nodup a oa Ga) | exact I0 | exact Ik]). subst v0. exact Vv.
 Qed.
 
-Lemma init_inv2 : (forall x, In x seeds -> 0 <= x < n0) -> Inv2 (init_st h0 seeds).
+Lemma init_inv2 : forall nf, (forall x, In x seeds -> 0 <= x < n0) -> Inv2 (init_st nf h0 seeds).
 Proof.
-  intros Hs. constructor; simpl.
+  intros nf Hs. constructor; simpl.
   - intros a b [].
   - intros a a' b [].
   - intros a b E Hb. apply alookup_seed in E. destruct E as [E I]. subst b. specialize (Hs a I). lia.
@@ -1728,16 +1728,16 @@ Proof.
   - intros y ob Hy G. apply hget_Some_range in G. lia.
 Qed.
 
-Theorem run_bisim : forall fuel root s' y, (forall x, In x seeds -> 0 <= x < n0) -> Inv (init_st h0 seeds) ->
-  0 <= root < n0 -> ~ owned root -> (length h0 < fuel)%nat -> (U (init_st h0 seeds) <= length h0)%nat ->
-  run_seeded fuel h0 seeds root = Ok (s', R y) ->
+Theorem run_bisim : forall nf fuel root s' y, (forall x, In x seeds -> 0 <= x < n0) -> Inv (init_st nf h0 seeds) ->
+  0 <= root < n0 -> ~ owned root -> (length h0 < fuel)%nat -> (U (init_st nf h0 seeds) <= length h0)%nat ->
+  run_seeded nf fuel h0 seeds root = Ok (s', R y) ->
   vrel (sc s') (R root) (R y)
   /\ (forall a b, In (a, b) (sc s') -> PairOK (sc s') (sh s') a b)
   /\ (forall a a' b, In (a, b) (sc s') -> In (a', b) (sc s') -> a = a').
 Proof.
-  intros fuel root s' y Hs IV0 Hr NO Hf HU E. unfold run_seeded in E.
+  intros nf fuel root s' y Hs IV0 Hr NO Hf HU E. unfold run_seeded in E.
   destruct (dc_specB fuel) as [_ RB].
-  destruct (RB (init_st h0 seeds) (R root) IV0 (init_inv2 Hs)) with (s' := s') (v' := R y) as [J [F [V NP]]].
+  destruct (RB (init_st nf h0 seeds) (R root) IV0 (init_inv2 nf Hs)) with (s' := s') (v' := R y) as [J [F [V NP]]].
   - split; [exact Hr | exact NO].
   - lia.
   - exact E.
